@@ -9,7 +9,8 @@ THEOREMS = ["C05_Inv_wake_preserved", "C05_Inv_wake_every_history", "C05_snapsho
             "C05_never_late_never_lost", "C05_complete_run_wakes_at_deadline", "C05_futures_keep_invariant",
             "C05_composite_event_is_driver_event", "C05_woken_through_last_poller",
             "C05_composite_sleep_exact", "C05_composite_sleep_prefix", "C05_fragment_scripts_decode_ok",
-            "C05_removal_by_id_needs_distinct_ids", "C05_composite_reset_drop_exact", "C05_composite_timeout_sleep_exact", "C05_composite_interval_exact", "C05_composite_keepalive_select_exact", "C05_composite_select_exact", "C05_composite_timeout_recv_exact",
+            "C05_removal_by_id_needs_distinct_ids", "C05_composite_reset_drop_exact", "C05_composite_timeout_sleep_exact", "C05_composite_interval_exact", "C05_composite_keepalive_select_exact", "C05_composite_select_exact", "C05_composite_timeout_recv_exact", "C05_run_over_cqueue_eq_run_over_spec", "C05_composite_exact_cq",
+            "C05_composite_sleep_exact_cq", "C05_woken_exactly_at_deadline_cq",
             "C05_due_deadline_completes_immediately",
             "C05_timeout_ok_iff_inner_first", "C05_interval_ticks"]
 QUICK_N = 2500; THOROUGH_N = 150000
